@@ -6,7 +6,8 @@ Values `V` (as in drivers/C14.lean): a number is an integer, a string a string, 
 `{"t":[..]}` a tuple, an array a dictionary = its slots over the request's key alphabet `names`
 (`null` = key absent).  Flow values: `{"d":V}` (bare) or `{"d":V,"c":D}`.
 Steps: {"k":"scale","x":i} {"k":"proj","i":n} {"k":"setkey","key":n,"v":V} {"k":"var","proj":n|null,"vc":D}
-       {"k":"dup"} {"k":"dropodd"} {"k":"failon","x":i}
+       {"k":"dup"} {"k":"dropodd"} {"k":"failon","x":i} {"k":"count","key":n} {"k":"acc","kind":<acc>}
+       (count/acc: stateful, only after the accumulator; acc only in the MapBins sequence)
 Request:
   {"op":"case","names":[..],"edges":[i..] | [[i..]..],"seq_ok":b,"argvar_ok":b,
    "getter":{"k":"id"}|{"k":"proj","i":n}|{"k":"comb","is":[n..]},"vc":D,
@@ -64,6 +65,20 @@ def toValues (j : Json) : Option (List Val) := do
   let a ← arr? j
   a.toList.mapM toValue
 
+def toAcc (j : Json) : Option AccKind :=
+  match str? j with
+  | some "sum" => some .sum
+  | some "count" => some .count
+  | some "store" => some .store
+  | some "sumcount" => some .sumCount
+  | some "each" => some .each
+  | some "failempty" => some .failEmpty
+  | some "sumfail" => some .sumFail
+  | _ => none
+
+def accNum : AccKind → Nat
+  | .sum => 0 | .count => 1 | .store => 2 | .sumCount => 3 | .each => 4 | .failEmpty => 5 | .sumFail => 6
+
 def toStep (j : Json) : Option Step :=
   match str? (getD j "k") with
   | some "scale" => (int? (getD j "x")).map Step.scale
@@ -79,28 +94,30 @@ def toStep (j : Json) : Option Step :=
   | some "dup" => some .dup
   | some "dropodd" => some .dropOdd
   | some "failon" => (int? (getD j "x")).map Step.failOn
+  | some "count" => (nat? (getD j "key")).map Step.count
+  | some "acc" => (toAcc (getD j "kind")).map (fun a => Step.acc (accNum a))
   | _ => none
 
 def toSteps (j : Json) : Option (List Step) := do
   let a ← arr? j
   a.toList.mapM toStep
 
-def toAcc (j : Json) : Option AccKind :=
-  match str? j with
-  | some "sum" => some .sum
-  | some "count" => some .count
-  | some "store" => some .store
-  | some "sumcount" => some .sumCount
-  | some "each" => some .each
-  | some "failempty" => some .failEmpty
-  | some "sumfail" => some .sumFail
-  | _ => none
+def isStateful : Step → Bool
+  | .count _ => true
+  | .acc _ => true
+  | _ => false
 
+def isAcc : Step → Bool
+  | .acc _ => true
+  | _ => false
+
+/-- the stateful elements are modelled on whole flows only: not among the pre-elements; an accumulator
+(whose `run` raises at once) not among the post-elements of the split analysis -/
 def toSpec (j : Json) : Option Spec := do
   let pre ← toSteps (getD j "pre")
   let acc ← toAcc (getD j "acc")
   let post ← toSteps (getD j "post")
-  pure ⟨pre, acc, post⟩
+  if pre.any isStateful || post.any isAcc then none else pure ⟨pre, acc, post⟩
 
 def toGetter (j : Json) : Option Getter :=
   match str? (getD j "k") with
@@ -193,7 +210,7 @@ def handleCase (j : Json) : Option Json := do
         let steps ← toSteps (getD mj "steps")
         let drop ← bool? (getD mj "drop")
         let fl ← stageFlow mj comp.out
-        pure (ofTrace ofFVal (mapBinsRun names (seqRun names steps) (sel.onValue names) drop fl))
+        pure (ofTrace ofFVal (mapBinsRun names (seqStart names steps) (sel.onValue names) drop fl))
       pure (Json.mkObj [("cells", cells), ("cur", ofD s.curContext), ("compute", compJ),
         ("iter", iterJ), ("map", mapJ)])
 
